@@ -112,6 +112,46 @@ def c16(res):
                       "lattice points of [-3,3]^3; a case = one shape")
 
 
+def c17_meta(wd):
+    """shape table (names, field types, defaults) exported from the real crate by reflection; read by Script.tla"""
+    meta = os.path.join(wd, "meta.ndjson")
+    rc, text = record("c17", ["meta", meta], wd, timeout=300)
+    if rc != 0:
+        raise ToolError("c17 meta failed: " + text[-500:])
+    os.environ["META"] = meta
+    return meta
+
+
+def c17(res):
+    wd = workdir("C17")
+    q = res.tier == "quick"
+    c17_meta(wd)
+    cases = os.path.join(wd, "cases.out")
+    g = generate("MC_Script", "Script_quick.cfg" if q else "Script_thorough.cfg", wd, cases, workers=8 if q else 16, timeout=10000)
+    res.gens.append(g)
+    if "is violated" in open(cases).read():
+        sys.stdout.write("".join(l for l in open(cases) if '"GEN"' not in l)[-3000:])
+        raise ToolError("Script.tla law violated (MC_Script)")
+    trace = os.path.join(wd, "trace.ndjson")
+    if not run_recorder(res, "c17", ["run", cases, trace], wd, timeout=3000):
+        return res.finish("recorder crashed")
+    n, rej = validate("Trace_C17", trace, wd, timeout=10000, parallel=1 if q else 8)
+    res.validated = n - len(rej)
+    res.evaluations = n
+    res.samples = sample_lines(trace, maxlen=1200)
+    res.add_rejects(trace, rej, lambda r, f: "script=%s status=%s %s fails=%s" % (r.get("script"), r.get("status"), r.get("msg", "")[:80], "+".join(sorted(f))))
+    res.assumptions = ["numbers are dyadic rationals (exact in f32 and f64); axes are the coordinate axes; only forms whose denotation the "
+                       "model defines are generated (number-only subexpressions limited to + - *)",
+                       "positional forms of the shape `plane` are not generated: plane(axis, number) is also the Plane value constructor",
+                       "rejections other than comparisons on trees are implementation-shaped (SPEC-DRIFT, not violations)"]
+    return res.finish("MC_Script.tla enumerates scripts from the grammar (all operators and math functions in infix / call / method form over "
+                      "variables, numbers on either side and arrays, depth <= 2, comparisons) and, for every shape of the table reflected from "
+                      "the real crate, every call form (map with every subset of defaulted fields left out, (tree, map) and chained, positional in "
+                      "every order, ordered, two-tree, 1..8-tree reduction and array) over several literal spellings per field type; TLC also checks "
+                      "the matching laws (order irrelevance, chained = call, omitted = default, transform = map, positional = map). Each script runs "
+                      "in the real engine; Trace_C17 recomputes the denotation and compares structurally; a case = one script")
+
+
 def c18(res):
     wd = workdir("C18")
     q = res.tier == "quick"
@@ -472,7 +512,7 @@ def c11(res):
                       "Function and Shape APIs; a case = one call")
 
 
-CHECKS = {"C01": c01, "C03": c03, "C05": c05, "C06": c06, "C07": c07, "C09": c09, "C11": c11, "C12": c12, "C13": c13, "C02": c02, "C04": c04, "C10": c10, "C14": c14, "C15": c15, "C16": c16, "C18": c18, "C19": c19, "C20": c20}
+CHECKS = {"C01": c01, "C03": c03, "C05": c05, "C06": c06, "C07": c07, "C09": c09, "C11": c11, "C12": c12, "C13": c13, "C02": c02, "C04": c04, "C10": c10, "C14": c14, "C15": c15, "C16": c16, "C17": c17, "C18": c18, "C19": c19, "C20": c20}
 
 
 def replay(prop, path):
@@ -482,6 +522,8 @@ def replay(prop, path):
     if spec is None:
         print("no replay for", prop)
         return 2
+    if prop == "C17":
+        c17_meta(workdir(prop))
     n, rej = validate(spec, os.path.abspath(path), workdir(prop))
     if rej:
         print("VIOLATION property=%s replay=%s  # %s" % (prop, path, rej))
